@@ -17,6 +17,7 @@ import re
 import shutil
 import subprocess
 import sys
+import time
 
 import vlib
 import progcheck
@@ -60,6 +61,8 @@ class Tree(object):
         self.finals = {}
         self.ncmd = 0
         self.dead = None
+        self.slow = []
+        self.retries = 0
         os.makedirs(root, exist_ok=True)
 
     def _dir(self, name):
@@ -73,8 +76,12 @@ class Tree(object):
         if self.dead:        # the direct compilation at this level already failed: nothing else is attempted
             return {"rc": None, "out": "", "err": "skipped: " + self.dead, "timeout": True, "cmd": "(skipped)", "dir": d}
         self.ncmd += 1
+        t0 = time.time()
         rc, out, err, to = vlib.aldor(self.b, self.dargs + [qopt(self.level)] + list(args), d, timeout=timeout or self.TIMEOUT)
+        self.slow.append((round(time.time() - t0, 1), "%s %s" % (qopt(self.level), " ".join(args)), os.path.basename(d)))
+        self.slow = sorted(self.slow, reverse=True)[:3]
         if to and not any(a.endswith(".as") for a in args):
+            self.retries += 1
             # a reload normally takes a fraction of a second: a timeout is reported only if a patient second attempt repeats it
             rc, out, err, to = vlib.aldor(self.b, self.dargs + [qopt(self.level)] + list(args), d, timeout=4 * (timeout or self.TIMEOUT))
         return {"rc": rc, "out": out.decode(errors="replace"), "err": err.decode(errors="replace"), "timeout": to,
@@ -526,6 +533,12 @@ class TextForm(object):
 
     def token_form(self, values):
         """(canonical token text after replacing the re-expressed constants, number of replacements)"""
+        key = id(values), len(values)
+        if getattr(self, "_tf", (None, None))[0] != key:
+            self._tf = (key, self._token_form(values))
+        return self._tf[1]
+
+    def _token_form(self, values):
         if self.tree is None:
             return self.named.decode("latin-1"), 0
         found = []
@@ -558,18 +571,20 @@ def diff_class(a, b):
     if la == lb:
         return "same-tokens-different-layout"
     if len(la) != len(lb):
-        import difflib
-        sm = difflib.SequenceMatcher(None, la, lb, autojunk=False)
-        casts = True
-        for tag, i1, i2, j1, j2 in sm.get_opcodes():
-            if tag == "equal":
-                continue
-            gone = la[i1:i2]
-            # a cast `(FiXxx)` and the parentheses that wrapped the cast expression
-            if not (tag == "delete" and all(g in ("(", ")") or re.match(r"^Fi[A-Za-z]+$", g) for g in gone)):
-                casts = False
-                break
-        return "only-casts-missing" if casts else "token-count-differs"
+        # only casts `(FiXxx)` and the parentheses that wrapped the cast expression are missing from b?
+        tyname = re.compile(r"^Fi[A-Za-z]+$")
+        i = j = 0
+        skipped_type = False
+        while i < len(la):
+            if j < len(lb) and la[i] == lb[j]:
+                i += 1
+                j += 1
+            elif la[i] in ("(", ")") or tyname.match(la[i]):
+                skipped_type = skipped_type or la[i] not in ("(", ")")
+                i += 1
+            else:
+                return "token-count-differs"
+        return "only-casts-missing" if j == len(lb) and skipped_type else "token-count-differs"
     num = re.compile(r"^-?([0-9]+)L?$")
     for x, y in zip(la, lb):
         if x != y:
